@@ -27,3 +27,30 @@ check("C12", "internal/zzverif/c12",
       note="Trusts the 15-line model of C.6 in harness/internal/zzverif/c12; fuzz's unexported compactEncode/Decode are reached through an overlay-only export shim.",
       shards=(8, 16), floors={"any": {"exh3_strings": 16843008, "values": 1000}},
       exhaustive="all byte strings of length 1..3 x 6 decoders", assumptions=[STANDIN_VRF])
+
+check("C18", "internal/utilities/merkle_tree",
+      rule="case = one blob sequence (every length 0..70 x element modes {random 0..40 bytes, 32-byte, mix with nil/empty, tiny} x {Blake2b,Keccak}; longer random lengths 71..470) on which N, Mb, C, M, T(v,i) for every i, Lx/Jx for every page and x=0..6 are compared with an explicit-tree model, "
+           "every Jx is folded from the page subtree root to M(v), one element is changed and Mb/M must change; VerifyMerkleProof over J0 for lengths 1..20. distinct_nontrivial = distinct sequences with >=2 elements",
+      technique="reference-model monitor (explicit-tree model of GP E.1, folding oracle) over all lengths 0..70 and every index",
+      level_text="Differential run of every exported Merkle function against an independent explicit-tree model for every length 0..70, every index and page size; held = no divergence on what was explored.",
+      note="Trusts the explicit-tree model (ceil split, 'node'/'leaf' prefixes) in harness/internal/utilities/merkle_tree/c18_test.go. PagedProofs/CE-140 users are exercised in separate parts when the erasure stand-in is available.",
+      shards=(8, 16), floors={"any": {"roots_compared": 800, "traces_compared": 20000, "pages_compared": 20000}},
+      exhaustive="all lengths 0..70 x every index x page sizes 2^0..2^6")
+
+check("C19", "internal/zzverif/c19",
+      rule="case = one append history (length up to 300 quick / 2000 thorough; modes: one MMR object, restart from a deep state copy at random points, through recent_history.AppendAndCommitMmr, restart with spare capacity in the backing array) "
+           "checked after EVERY append against a count-based model (peak i present iff bit i of the count, = Keccak merge tree of its 2^i items, x/crypto Keccak used directly) and the super-peak fold; every slice handed out or passed in is snapshotted (header, pointers, values) and re-compared later; "
+           "plus direct P() calls on caller-owned slices with holes/spare capacity. distinct_nontrivial = distinct histories + distinct P inputs",
+      technique="reference-model monitor (count-based MMR model) + alias-snapshot invariant monitor over append histories",
+      level_text="Every intermediate state of generated append histories is compared with an independent model and every previously returned peak list is re-checked for mutation; held = no divergence on what was explored.",
+      note="Trusts the count-based model and x/crypto's Keccak. Only exported API (mmr.*, recent_history.AppendAndCommitMmr) is used.",
+      shards=(8, 16), floors={"any": {"appends": 2000, "P_calls": 1500}},
+      assumptions=[STANDIN_VRF])
+
+check("C15", "internal/zzverif/c15",
+      rule="case = one set of 0..200 (thorough 0..2000) entries with distinct 31-byte keys drawn from prefix families sharing 0..247 leading bits (divergence forced at a random bit), value lengths {nil,0,1,31,32,33,64,random<=200}; "
+           "MerklizationSerializedState on 3 random permutations must equal the root of an explicit bit-by-bit insertion trie (x/crypto blake2b), must not reorder its input, and the WithCache variant must agree. distinct_nontrivial = distinct model roots of sets with >=2 entries",
+      technique="reference-model monitor (explicit insertion trie vs in-place partition) over generated entry sets and permutations",
+      level_text="Differential run against an independent trie model on generated entry sets with adversarial shared prefixes and values around the 32-byte boundary; held = no divergence on what was explored.",
+      note="Trusts the node layout as given in the property statement (0x80|len embedded leaf, 0xC0 hashed leaf, branch with first bit cleared) implemented in harness/internal/zzverif/reftrie. Full-State roots are checked in C17's state generator part.",
+      shards=(8, 16), floors={"any": {"entries": 50000, "max_depth_ge_200": 1}}, assumptions=[STANDIN_VRF])
